@@ -39,6 +39,7 @@ func runC01(c *Check, tier string) {
 	// dependency digests reach the key through alias chains of any length
 	ruleAliasChainsFollowed(c, "R01p", "dag", "analysis")
 	ruleDeclaredOrderKept(c, "R01q")
+	ruleOutputHashCoversRecord(c, "R01s")
 	shareRule(c, "R01r", "what is cached for a directory output is the whole directory: every entry adds a node to the stored tree (same obligation as R06h)", 1, "R06h", func(sub *Check) { ruleR06h(sub) }, nil)
 	useFamily(c, "R01m", famGate, 8)
 	useFamily(c, "R01n", famStore, 20)
@@ -286,7 +287,6 @@ func ruleR01a(c *Check, rule string) {
 // is not read and hashed within one function (the whole-program may-flow is all that is decided then).
 func conditionalKeySource(c *Check, key engine.FieldKey) string {
 	kf := keyFuncs(c)
-	sinks := hasherSinks(c)
 	isRead := func(v ssa.Value) bool {
 		switch x := v.(type) {
 		case *ssa.FieldAddr:
@@ -296,6 +296,18 @@ func conditionalKeySource(c *Check, key engine.FieldKey) string {
 		}
 		return false
 	}
+	var vals []ssa.Value
+	for _, s := range hasherSinks(c) {
+		if kf[s.Call.Parent()] {
+			vals = append(vals, s.Val)
+		}
+	}
+	return dilutedSource(c, isRead, vals)
+}
+
+// dilutedSource: of the sink values that depend (register-level) on a value isRead accepts, every one merges it
+// with a non-constant alternative in a phi. Returns "" when some sink must-depends on it (or none depends).
+func dilutedSource(c *Check, isRead func(v ssa.Value) bool, sinkVals []ssa.Value) string {
 	// register-level dependence (operands only, no memory): does v depend on a read of the field?
 	memo := map[ssa.Value]int{}
 	var dep func(v ssa.Value, d int) bool
@@ -379,13 +391,12 @@ func conditionalKeySource(c *Check, key engine.FieldKey) string {
 	}
 	n, nd := 0, 0
 	where := ""
-	for _, s := range sinks {
-		fn := s.Call.Parent()
-		if !kf[fn] || !dep(s.Val, 0) {
+	for _, sv := range sinkVals {
+		if !dep(sv, 0) {
 			continue
 		}
 		n++
-		if dl, w := diluted(s.Val, map[ssa.Value]bool{}, 0); dl {
+		if dl, w := diluted(sv, map[ssa.Value]bool{}, 0); dl {
 			nd++
 			where = w
 		}
@@ -950,5 +961,66 @@ func ruleDeclaredOrderKept(c *Check, rule string) {
 	}
 	if n == 0 {
 		c.Unknown(rule, "declared-order-kept", "no function outside internal/loading reads Target.Outputs: the rule lost its subject", "-")
+	}
+}
+
+// R01s: the output hash of a target covers its whole output record on every path. Dependants key on it; a hash
+// that for some kinds of output is computed from the content digest alone no longer says where the content is
+// (two outputs exchanging their contents, a renamed output) or whether it is executable.
+func ruleOutputHashCoversRecord(c *Check, rule string) {
+	c.Rule(rule, "in the function that hashes output records, every per-output value that is collected or written to the hasher and that depends on the serialised record (Marshal of the output) depends on it on every path: it is not merged with an alternative computed from something else", 1)
+	n := 0
+	for _, fn := range c.P.Funcs {
+		if !engine.InPackage(fn, "output") {
+			continue
+		}
+		var marshals []ssa.Value
+		for _, s := range engine.SitesIn(fn) {
+			if strings.HasSuffix(engine.CalleeName(s), "proto.MarshalOptions).Marshal") || engine.CalleeName(s) == "google.golang.org/protobuf/proto.Marshal" {
+				for _, a := range s.Common().Args {
+					if mi, ok := a.(*ssa.MakeInterface); ok {
+						a = mi.X
+					}
+					if engine.TypeKey(a.Type()) == "proto/gen.Output" && s.Value() != nil {
+						marshals = append(marshals, s.Value())
+					}
+				}
+			}
+		}
+		if len(marshals) == 0 {
+			continue
+		}
+		n++
+		isRead := func(v ssa.Value) bool {
+			for _, m := range marshals {
+				if v == m {
+					return true
+				}
+			}
+			return false
+		}
+		// sinks: what is appended to a list of digests, and what is written to a hasher, in this function
+		var vals []ssa.Value
+		for _, b := range fn.Blocks {
+			for _, in := range b.Instrs {
+				if st, ok := in.(*ssa.Store); ok && isStringType(st.Val.Type()) {
+					if ia, ok := st.Addr.(*ssa.IndexAddr); ok {
+						if al, ok := ia.X.(*ssa.Alloc); ok && al.Comment == "varargs" {
+							vals = append(vals, st.Val)
+						}
+					}
+				}
+			}
+		}
+		for _, hs := range hasherSinks(c) {
+			if hs.Call.Parent() == fn {
+				vals = append(vals, hs.Val)
+			}
+		}
+		why := dilutedSource(c, isRead, vals)
+		c.Require(why == "", rule, "output-hash-covers-record/"+c.P.FuncName(fn), "the serialised record reaches the combined hash on every path", "the serialised output record is only one of the alternatives that are hashed ("+why+"): for some outputs the hash is computed from something narrower (the content digest alone, say), so exchanging the contents of two outputs, renaming an output or changing its executable bit leaves the target's output hash — and the keys of its dependants — unchanged", c.P.Pos(fn.Pos()))
+	}
+	if n == 0 {
+		c.Unknown(rule, "output-hash-covers-record", "no function of internal/output serialises an output record for hashing", "-")
 	}
 }
